@@ -1,6 +1,6 @@
 (** C10 — changing representation loses nothing: the obligations, written out in full. *)
 From Coq Require Import List NArith ZArith String.
-From SK Require Import lib.LGraph lib.StrJoin model.C10_Model proof.C10_Proof proof.C10_Hydrogen proof.C10_Routes proof.C10_GmlWrite proof.C10_HRound proof.C10_Routes2 proof.C10_Reindex proof.C10_MolGraph.
+From SK Require Import lib.LGraph lib.StrJoin model.C10_Model proof.C10_Proof proof.C10_Hydrogen proof.C10_Routes proof.C10_GmlWrite proof.C10_HRound proof.C10_Routes2 proof.C10_Reindex proof.C10_MolGraph proof.C10_Smart.
 Import ListNotations.
 Local Open Scope Z_scope.
 
@@ -194,3 +194,21 @@ Theorem C10_h_implicit_skeleton :
     (forall u v, is_H g u = false -> is_H g v = false -> adj F u v = adj g u v).
 Proof. exact h_implicit_skeleton. Qed.
 Print Assumptions C10_h_implicit_skeleton.
+
+(** From the reaction string to the rule and back (end to end after RDKit).  For every pair of molecule graphs r, p as
+    MolToGraph writes them ([mol_ok]) on the same atoms with the same elements ([balanced]: an atom-balanced mapped
+    reaction) and every enumeration eo of the union of their bonds ([eo_covers]; the set-iteration artefact of ITSGraph),
+    the rule written by smart_to_gml(core=True) reads back as the reaction centre c of ITSGraph(r, p): exactly its atoms,
+    element and both charges at each, exactly its (before, after) bond dictionaries.  In particular the centre of an
+    ITS built from molecule graphs always lies in the domain [its_ok]-as-a-proposition of C10_gml_roundtrip. *)
+Theorem C10_smart_roundtrip :
+  forall (r p : gr) (eo : list (N * N)),
+    mol_ok r = true -> mol_ok p = true -> balanced r p = true -> eo_covers r p eo = true ->
+    let c := get_rc (its_construct r p eo) in
+    let I' := gml_to_its (smart_to_gml r p eo true false false) in
+    (forall n, has_node I' n = has_node c n) /\
+    (forall n a, label c n = Some a ->
+       label I' n = Some (gml_node n (tg_el (tG_of a)) (tg_ch (tG_of a)) (tg_ch (tH_of a)))) /\
+    (forall u v, adj I' u v = adj c u v).
+Proof. intros r p eo Hr Hp Hb He. apply smart_roundtrip; auto. apply eo_covers_spec. exact He. Qed.
+Print Assumptions C10_smart_roundtrip.
